@@ -190,6 +190,11 @@ def run_script(case, stats):
                 small.append((off_, off_ + len(it_[1])))
             off_ += len(it_[1])
 
+    if off_ + (len(junk) if junk else 0) > 16000:
+        # (only while everything the peer sends fits into the connection's buffers many times over: with a longer stream the receive window can close
+        # in the middle of a fragment, and then the rest of it is NOT there yet)
+        small = []
+
     def buffered_now(pos_):
         return any(a < pos_ < b for (a, b) in small)
     if first_req:
@@ -514,11 +519,19 @@ def run_case(case):
     stats = {"scripts": 0, "reads_checked": 0, "timeouts_observed": 0, "reconnects": 0, "sessions": 0, "double_closes": 0, "bytes_read": 0, "inconclusive_retries": 0, "resets": 0, "big_outbound": 0}
     if case["kind"] == "script":
         sig, viol, sample = run_script(case, stats)
-        if viol and all(v["mechanism"] == "read-blocked-past-timeout" for v in viol):
-            # a wall-clock observation: it counts only if the same script shows it again
-            stats["inconclusive_retries"] += 1
-            sig, viol2, sample = run_script(case, stats)
-            viol = viol2 if any(v["mechanism"] == "read-blocked-past-timeout" for v in viol2) else [v for v in viol2 if v["mechanism"] != "read-blocked-past-timeout"]
+        WALL = ("read-blocked-past-timeout", "timeout-swallowed", "timeout-too-early")
+        if viol and all(v["mechanism"] in WALL for v in viol):
+            # wall-clock observations (a loaded machine can delay the reader past a whole pause of the peer, or the peer past a timeout): such a finding counts
+            # only if the same script shows the same mechanism twice more in a row; a genuine defect of this kind is deterministic
+            first = set(v["mechanism"] for v in viol)
+            for _ in range(2):
+                stats["inconclusive_retries"] += 1
+                time.sleep(0.2)
+                sig, viol2, sample = run_script(case, stats)
+                first &= set(v["mechanism"] for v in viol2)
+                viol = [v for v in viol2 if v["mechanism"] not in WALL or v["mechanism"] in first]
+                if not first:
+                    break
     else:
         for attempt in range(2):
             sig, viol, sample, inc = run_session(case, stats)
